@@ -28,7 +28,9 @@ RULE = ("scenes from the seed, each built in all three cyclic orientations throu
         "with the model on the arrays place_objects produced); a tiny scene with full-tensor Materials with a lone "
         "off-diagonal entry in permittivity, sigma_E, sigma_H. Oracle: max |rot^-r(result_r) "
         "- result_0| <= 1e-9 * max|result| for E, H and every raw record (run_fdtd resets the fields, so levels are set by the sources). K: forward() of each orientation of "
-        "PML-free scenes (tiers <= 3) vs model fwd / rotfwd, Poynting record vs rotpoynting; exhaustively over the three "
+        "PML-free scenes (tiers <= 3) vs model fwd / rotfwd, Poynting record vs rotpoynting; scenes with PML (quick: the first one): forward() incl. "
+        "the psi arrays of every PML vs the Lean CPML model applied to the Lean-relabelled request of the previous "
+        "orientation (op rotpmlfwd; random diagonal-tier materials, fields, psi); exhaustively over the three "
         "axes get_oriented_transverse_axes / get_transverse_axes vs the model (hvp / ascending) and the cyclic relabelling of "
         "tilted_polarization_vectors (random azimuth/elevation of both signs, both directions, E- or H-given polarisation). non-trivial = every scene "
         "(all have sources and a non-cubic shape or distinct faces).")
@@ -630,6 +632,69 @@ def k_model(ctx, c0, per):
                              floor=max(1e-30, float(np.max(np.abs(S)))))
 
 
+def face_of(p):
+    return ("min_" if p.direction == "-" else "max_") + "xyz"[p.axis]
+
+
+def k_model_pml(ctx, c0, per):
+    """scenes with PML layers: forward() of orientation r+1 (fields AND the psi arrays of every PML) vs the Lean CPML model
+    applied to the Lean-relabelled request of orientation r (op rotpmlfwd; r = 0, 1, 2 closes the cycle). Materials of
+    this step are random diagonal-tier arrays (the CPML model sits on the diagonal Yee tier), fields and psi random."""
+    from . import cpml_api as CP
+    j = Y.J()
+    jnp = j["jnp"]
+    from fdtdx.fdtd.update import update_E, update_H
+    r0 = np.random.default_rng(c0["seed"] + 17)
+    nx, ny, nz = c0["shape"]
+    base = {"E": r0.standard_normal((3, nx, ny, nz)), "H": r0.standard_normal((3, nx, ny, nz)),
+            "ie": r0.uniform(0.2, 1.0, (3, nx, ny, nz)), "im": r0.uniform(0.4, 1.0, (3, nx, ny, nz))}
+    sc0 = per[0][0]
+    psi0 = {face_of(p): [r0.standard_normal(p.grid_shape) for _ in range(4)] for p in CP.pml_list(sc0)}
+    data = []
+    for r in range(3):
+        sc, c, a, _ = per[r]
+        cur = {k: v for k, v in base.items()}
+        psi = {k: list(v) for k, v in psi0.items()}
+        for _ in range(r):
+            cur = {"E": rot_vec(cur["E"]), "H": rot_vec(cur["H"]), "ie": rot_arr(cur["ie"]), "im": rot_arr(cur["im"])}
+            psi = {rot_face(k): [np.transpose(x, (2, 0, 1)) for x in v] for k, v in psi.items()}
+        pmls = CP.pml_list(sc)
+        psiE = {p.name: tuple(jnp.asarray(x) for x in psi[face_of(p)][:2]) for p in pmls}
+        psiH = {p.name: tuple(jnp.asarray(x) for x in psi[face_of(p)][2:]) for p in pmls}
+        arrays = CP.with_psi(Y.with_state(sc, cur["E"], cur["H"], cur["ie"], cur["im"]), psiE, psiH)
+        st = Y.impl_forward(sc, arrays, t=1, n=1)
+        out = {"E": np.asarray(st[1].fields.E), "H": np.asarray(st[1].fields.H),
+               "psi": {face_of(p): [np.asarray(x) for x in (*st[1].fields.psi_E[p.name], *st[1].fields.psi_H[p.name])] for p in pmls}}
+        zpsiE = {p.name: tuple(jnp.zeros(p.grid_shape) for _ in range(2)) for p in pmls}
+        zero = CP.with_psi(Y.with_state(sc, np.zeros_like(cur["E"]), np.zeros_like(cur["H"]), cur["ie"], cur["im"]), zpsiE, zpsiE)
+        tt = jnp.asarray(1, dtype=jnp.int32)
+        jE = np.asarray(update_E(tt, zero, sc.objects, sc.config, True).fields.E)
+        jH = np.asarray(update_H(tt, zero, sc.objects, sc.config, True).fields.H)
+        line = " ".join(["rotpmlfwd", "1"] + CP.pmls_tokens(sc, psiE, psiH)) + " " + CP.yee_tail(sc, cur["E"], cur["H"], cur["ie"], cur["im"], (jE, jH))
+        data.append((sc, c, [face_of(p) for p in pmls], [CP.box_of(p) for p in pmls], line, out))
+    from .common import h2f
+    for r in range(3):
+        sc, c, faces_r, boxes_r, line, _ = data[r]
+        nxt = data[(r + 1) % 3]
+        vals = np.array([h2f(x) for x in ctx.driver.ask(line).split()], dtype=np.float64)
+        shp = tuple(nxt[1]["shape"])
+        n = 3 * shp[0] * shp[1] * shp[2]
+        mE, mH = vals[:n].reshape((3,) + shp), vals[n:2 * n].reshape((3,) + shp)
+        ctx.expect_close(f"forward with PML, orientation {(r + 1) % 3} vs model rot(request of orientation {r})", c0,
+                         np.concatenate([nxt[5]["E"].ravel(), nxt[5]["H"].ravel()]), np.concatenate([mE.ravel(), mH.ravel()]))
+        pos = 2 * n
+        for face, b in zip(faces_r, boxes_r):
+            rb = (b[5] - b[4], b[1] - b[0], b[3] - b[2])                 # relabelled box extents
+            v = rb[0] * rb[1] * rb[2]
+            impl = nxt[5]["psi"][rot_face(face)]
+            for q in range(4):
+                m = vals[pos:pos + v].reshape(rb)
+                pos += v
+                ctx.expect_close(f"psi[{q}] of {rot_face(face)} in orientation {(r + 1) % 3} vs model rot", c0, impl[q].ravel(), m.ravel())
+        ctx.expect_equal("model reply length (PML)", c0, int(vals.size), pos)
+    ctx.dist.setdefault("pml_model_compared", {"True": 0})["True"] += 1
+
+
 # --------------------------------------------------------------------------------------------------- driver
 def forced(rng):
     a = rng.randint(0, 2)
@@ -695,6 +760,10 @@ def one_scene(ctx, c0, sample=False):
         ctx.violation(c0, d)
     if model_ok(c0, results):
         k_model(ctx, c0, per)
+    has_pml = any(v == "pml" for v in c0["faces"].values())
+    if has_pml and (ctx.thorough or not ctx.extra.get("pml_k_done")):
+        ctx.extra["pml_k_done"] = True          # quick: the first PML scene only
+        k_model_pml(ctx, c0, per)
         ctx.dist.setdefault("model_compared", {"True": 0})["True"] += 1
 
 
